@@ -21,7 +21,7 @@ SNext ==
        /\ (SetBegin(w, w) \/ Create(w) \/ WriteChunk(w) \/ WriteDone(w) \/ Rename(w))
        /\ sch' = Append(sch, [p |-> "w", i |-> w])
   \/ \E r \in Readers :
-       /\ (GetOpen(r) \/ ReadSome(r) \/ ReadEOF(r))
+       /\ (GetOpen(r) \/ ReadSome(r) \/ ReadEOF(r) \/ TouchLive(r))
        /\ sch' = Append(sch, [p |-> "r", i |-> r])
   \/ \E d \in Deleters :
        /\ Delete(d)
